@@ -1,0 +1,64 @@
+//go:build verif
+
+// Contracts for cursor pagination, read by /verif/govc. The query builder and the database behind it are
+// an assumed contract (/verif/contracts/extern/bun.contracts): `rows` is the list of matching rows in order.
+// This file contains comments only; it is compiled only with -tags verif.
+
+package bunpaginate
+
+// the cursor token is a function of the cursor struct (base64 of its JSON form; injective as far as JSON is)
+//@ func (*bunpaginate.OffsetPaginatedQuery[PAYLOAD]).EncodeAsCursor
+//@   ensures q == nil ==> ret == ""
+//@   ensures q != nil ==> ret == cursorOfOffset(anyof(deref(q)))
+//@   pure
+//@   trusted encoding/json and base64 are library code
+
+// C17, offset pagination: a page is exactly the window [Offset, Offset+PageSize) of the rows; there is a next
+// page exactly when rows remain after the window, and it starts where this one ends; the previous page starts
+// PageSize earlier (not before 0); every other field of the cursor (filters, order, page size) is carried unchanged
+//@ def oN() = len(rows)
+//@ func bunpaginate.UsingOffset
+//@   requires sb != nil && qOffset[sb] == 0 && qLimit[sb] == 0 - 1
+//@   requires query.Offset <= 1000000000000 && query.PageSize <= 1000000000
+//@   ensures err == nil ==> ret0 != nil
+//@   ensures err == nil && query.PageSize > 0 ==> ret0.Data == rows[min(query.Offset, oN()):min(query.Offset + query.PageSize, oN())]
+//@   ensures err == nil && query.PageSize > 0 ==> (ret0.HasMore <==> query.Offset + query.PageSize < oN())
+//@   ensures err == nil && query.PageSize == 0 ==> ret0.Data == rows[min(query.Offset, oN()):] && !ret0.HasMore
+//@   ensures err == nil && ret0.HasMore ==> ret0.Next == cursorOfOffset(anyof(with(query, "Offset", query.Offset + query.PageSize)))
+//@   ensures err == nil && !ret0.HasMore ==> ret0.Next == ""
+//@   ensures err == nil && query.Offset > 0 ==> ret0.Previous == cursorOfOffset(anyof(with(query, "Offset", max(0, query.Offset - query.PageSize))))
+//@   ensures err == nil && query.Offset == 0 ==> ret0.Previous == ""
+//@   ensures err == nil ==> ret0.PageSize == query.PageSize
+//@   property C17
+
+//@ func (*bunpaginate.ColumnPaginatedQuery[PAYLOAD]).EncodeAsCursor
+//@   ensures q == nil ==> ret == ""
+//@   ensures q != nil ==> ret == cursorOfColumn(anyof(deref(q)))
+//@   pure
+//@   trusted encoding/json and base64 are library code
+
+// C17, column pagination. `rows` are the rows satisfying the bound the cursor carries, in the order asked for
+// (forward: from the cursor's id on, inclusive; reverse: before it, nearest first); Scan fetches one more than a page.
+// pidx(row, i): the pagination id of a row (field i, read by reflection: a function of the row and of i).
+//@ def pidx(row, i) = as(lib("(reflect.Value).Interface", lib("(reflect.Value).Field", lib("reflect.ValueOf", row), i)), "*bunpaginate.BigInt")
+//@ def sameQuery(q2, q) = q2.PageSize == q.PageSize && q2.Column == q.Column && q2.Order == q.Order && q2.Options == q.Options
+//@ func bunpaginate.UsingColumn
+//@   requires sb != nil && qOffset[sb] == 0 && qLimit[sb] == 0 - 1 && query.PageSize <= 1000000000
+//@   ensures err == nil ==> ret0 != nil && len(ret0.Data) == min(len(lastScan), query.PageSize)
+//@   ensures err == nil && !query.Reverse ==> ret0.Data == lastScan[:min(len(lastScan), query.PageSize)]
+//@   ensures err == nil && query.Reverse ==> forall j in 0..len(ret0.Data) :: ret0.Data[j] == lastScan[len(ret0.Data)-1-j]
+//@   ensures err == nil && !query.Reverse ==> (ret0.HasMore <==> len(lastScan) > query.PageSize)
+// forward: the next cursor starts at the extra row (inclusive bound) and carries the filters, order and page size unchanged
+//@   ensures err == nil && !query.Reverse && len(lastScan) > query.PageSize ==> exists i int, q2 typeof(query) :: ret0.Next == cursorOfColumn(anyof(q2)) && sameQuery(q2, query) && !q2.Reverse && q2.PaginationID == pidx(lastScan[query.PageSize], i)
+// reverse: the page before this one ends just before this page's first row (exclusive bound): the previous cursor carries that row's id
+//@   ensures err == nil && query.Reverse && len(lastScan) > query.PageSize && query.PageSize > 0 ==> exists i int, q2 typeof(query) :: ret0.Previous == cursorOfColumn(anyof(q2)) && sameQuery(q2, query) && q2.Reverse && q2.PaginationID == pidx(ret0.Data[0], i)
+//@   ensures err == nil && query.Reverse && len(lastScan) <= query.PageSize ==> ret0.Previous == ""
+// reverse: going forward again resumes at the id this cursor carries
+//@   ensures err == nil && query.Reverse ==> exists q2 typeof(query) :: ret0.Next == cursorOfColumn(anyof(q2)) && sameQuery(q2, query) && !q2.Reverse && q2.PaginationID == query.PaginationID
+//@   loop 2 invariant 0 - 1 <= rangeindex && rangeindex < len(ret) && len(paginationIDs) == rangeindex + 1
+//@   loop 2 invariant forall j in 0..rangeindex+1 :: paginationIDs[j] == pidx(ret[j], paginatedColumnIndex)
+//@   loop 2 invariant query.PageSize == old(query.PageSize) && query.Column == old(query.Column) && query.Order == old(query.Order) && query.Options == old(query.Options) && query.Reverse == old(query.Reverse) && query.PaginationID == old(query.PaginationID)
+//@   loop 3 invariant 0 <= i && i <= len(ret)/2 && len(ret) == min(len(lastScan), query.PageSize)
+//@   loop 3 invariant forall j in 0..i :: ret[j] == lastScan[len(ret)-1-j] && ret[len(ret)-1-j] == lastScan[j]
+//@   loop 3 invariant forall j in i..len(ret)-i :: ret[j] == lastScan[j]
+//@   property C17
